@@ -185,6 +185,7 @@ pub fn for_each_value(cfg: &Cfg, tag: &str, f: &ValueCheck<'_>) -> Stats {
         }
     }
     d.list("parsed: G5 CLDR locale names x extension suffixes", &all);
+    d.list("parsed: inputs with a well-formed extension other than t / u / x in every position (values only if the library accepts them)", &gen::other_ext_inputs());
     let mut total = d.total;
     // 2. from_parts
     let n2 = cfg.pick(400_000, 3_000_000);
